@@ -63,7 +63,8 @@ def run(chk):
             chk.ob("C04-R2", "%s only non-positive durations are skipped" % cls, ok_skip and len(skips) <= 1, loc(f, {"line": L.line}),
                    "skip guards: %s" % desc, construct="%s/getEnergy/skip" % cls)
             # the accumulator starts at 0 and is what is returned
-            ok_ret = ret is not None and sym.is_zero(sp.sympify(ret) - acc[0].delta)
+            car = L.carried.get(acc[0].target[1:])
+            ok_ret = ret is not None and car is not None and car[1] == 0 and sym.is_zero(sp.sympify(ret) - car[0] - acc[0].delta)
             chk.ob("C04-R2", "%s returns the accumulated sum starting from zero" % cls, ok_ret, loc(f), "return value = 0 + increment",
                    construct="%s/getEnergy/return" % cls)
             guards = [e for e in I.effects if e.op == "guard-return"]
